@@ -53,6 +53,14 @@ FontsSid == {[ift |-> [compat |-> 1, tmpl |-> "A", entries |-> <<E({0}, {}, {}, 
 FontsSidOk == {f \in FontsSid : \A x, y \in 1..3 : f.ift.entries[x].id = f.ift.entries[y].id => f.ift.entries[x].fmt = f.ift.entries[y].fmt}
 DefsSid == {[cps |-> c, feats |-> {}, ds |-> {}, fall |-> FALSE, dall |-> FALSE] : c \in {{}, {0}, {1}, {0, 1}}}
 
+\* intersection sizes on the design axis: two invalidating entries that tie on code points and features and differ in how
+\* much of the definition's segments their own (possibly several, disjoint) segments cover - the larger total length wins,
+\* not the larger span
+SegSets == {{<<0, 1>>, <<5, 6>>}, {<<2, 5>>}, {<<0, 6>>}, {<<0, 1>>}, {<<0, 2>>, <<4, 6>>}, {<<3, 3>>, <<1, 2>>}}
+FontsSeg == {[ift |-> [compat |-> 1, tmpl |-> "A", entries |-> <<E({0}, {}, s1, {}, FALSE, FALSE, "part", 1), E({0}, {}, s2, {}, FALSE, FALSE, "part", 2)>>],
+              iftx |-> NoT] : s1 \in SegSets, s2 \in SegSets}
+DefsSeg == {[cps |-> {0}, feats |-> {}, ds |-> s, fall |-> FALSE, dall |-> a] : s \in {{<<0, 6>>}, {<<0, 2>>}, {<<1, 5>>}, {<<0, 0>>, <<6, 6>>}}, a \in BOOLEAN}
+
 \* invalidating entries sharing URIs inside one table (three entries, sizes 1..3, ids 1..2), optionally
 \* mirrored in IFTX: exercises de-duplication together with the largest-intersection rule
 P3(c, n, m) == E(c, {}, {}, {}, FALSE, FALSE, m, n)
